@@ -12,8 +12,12 @@ import (
 	"encoding/json"
 	"flag"
 	"fmt"
+	"io"
 	"math"
+	"net"
 	"net/http/httptest"
+	"os"
+	"path/filepath"
 	"regexp"
 	"runtime"
 	"sort"
@@ -688,6 +692,127 @@ func TestC22(t *testing.T) {
 	_ = flag.Set("collectd_prefix", "")
 	if r.Violations() == 0 {
 		concurrentPhase(t, r)
+	}
+	if r.Violations() == 0 {
+		realPush(t, r)
+	}
+}
+
+// realPush: the real PushMetrics path with all three push targets configured
+// at once (graphite over tcp, collectd over a unix socket, statsd over udp):
+// every collector must receive its own format's records for the store, once
+// per push, and nothing of another format.
+func realPush(t *testing.T, r *ev.Run) {
+	dir, _ := os.MkdirTemp(ev.Scratch(), "c22push")
+	defer os.RemoveAll(dir)
+	defer func() {
+		_ = flag.Set("graphite_host_port", "")
+		_ = flag.Set("collectd_socketpath", "")
+		_ = flag.Set("statsd_hostport", "")
+	}()
+	rng := ev.NewRNG(ev.Seed(), "c22-push")
+	for round := 0; round < ev.Pick(4, 60) && r.Violations() == 0; round++ {
+		g := rng.Sub(round)
+		s := genSpec(g, "", false)
+		st := build(s)
+		tl, err := net.Listen("tcp", "127.0.0.1:0")
+		if err != nil {
+			r.Inconclusive("cannot listen on tcp: " + err.Error())
+			return
+		}
+		ul, err := net.Listen("unix", filepath.Join(dir, fmt.Sprintf("collectd-%d.sock", round)))
+		if err != nil {
+			r.Inconclusive("cannot listen on a unix socket: " + err.Error())
+			return
+		}
+		uc, err := net.ListenPacket("udp", "127.0.0.1:0")
+		if err != nil {
+			r.Inconclusive("cannot listen on udp: " + err.Error())
+			return
+		}
+		type rx struct {
+			mu    sync.Mutex
+			conns int
+			data  []string
+		}
+		got := map[string]*rx{"graphite": {}, "collectd": {}, "statsd": {}}
+		var awg sync.WaitGroup
+		serve := func(name string, ln net.Listener) {
+			awg.Add(1)
+			go func() {
+				defer awg.Done()
+				for {
+					c, err := ln.Accept()
+					if err != nil {
+						return
+					}
+					b, _ := io.ReadAll(c)
+					c.Close()
+					x := got[name]
+					x.mu.Lock()
+					x.conns++
+					x.data = append(x.data, string(b))
+					x.mu.Unlock()
+				}
+			}()
+		}
+		serve("graphite", tl)
+		serve("collectd", ul)
+		awg.Add(1)
+		go func() {
+			defer awg.Done()
+			buf := make([]byte, 65536)
+			for {
+				n, _, err := uc.ReadFrom(buf)
+				if err != nil {
+					return
+				}
+				x := got["statsd"]
+				x.mu.Lock()
+				x.data = append(x.data, string(buf[:n]))
+				x.mu.Unlock()
+			}
+		}()
+		_ = flag.Set("graphite_host_port", tl.Addr().String())
+		_ = flag.Set("collectd_socketpath", ul.Addr().String())
+		_ = flag.Set("statsd_hostport", uc.LocalAddr().String())
+		e, err := exporter.New(context.Background(), st, exporter.Hostname(s.Host), exporter.PushInterval(60*time.Second))
+		if err != nil {
+			t.Fatal(err)
+		}
+		e.PushMetrics()
+		e.Stop()
+		// everything written has been handed to the kernel; let the readers drain
+		time.Sleep(50 * time.Millisecond)
+		tl.Close()
+		ul.Close()
+		uc.SetReadDeadline(time.Now().Add(200 * time.Millisecond))
+		awg.Wait()
+		uc.Close()
+		r.Eval(1)
+		r.Count("real_pushes_with_three_targets", 1)
+		for _, f := range []struct {
+			name string
+			ref  func(spec, mspec, lset) []string
+		}{{"graphite", refGraphite}, {"collectd", refCollectd}, {"statsd", refStatsd}} {
+			x := got[f.name]
+			var recs []string
+			for _, d := range x.data {
+				if f.name == "statsd" {
+					recs = append(recs, d)
+				} else {
+					recs = append(recs, strings.Split(strings.TrimRight(d, "\n"), "\n")...)
+				}
+			}
+			if f.name != "statsd" && x.conns != 1 {
+				r.Violation("real-push-"+f.name, map[string]any{"spec": s, "what": fmt.Sprintf("the %s collector saw %d connections for one push, want 1", f.name, x.conns), "received": clip(recs)})
+				break
+			}
+			if w := compareRecords(f.name, s, recs, f.ref); w != "" {
+				r.Violation("real-push-"+f.name, map[string]any{"spec": s, "what": "records received by the " + f.name + " collector (all three push targets configured): " + w, "received": clip(recs)})
+				break
+			}
+		}
 	}
 }
 
